@@ -236,6 +236,11 @@ func chunkRange(req *http.Request) (start, end int64, _ error) {
 		if !rangeOK {
 			return 0, 0, badAPIUseError("we don't understand your Content-Range")
 		}
+		if start == 0 && end == 0 && req.ContentLength == 1 {
+			// "0-0" is ambiguous: it's both the empty range and the
+			// range holding exactly the first byte. The body length tells us which.
+			end = 1
+		}
 	}
 
 	if rangeOK && req.ContentLength >= 0 {
